@@ -72,6 +72,7 @@ type Expression interface {
 
 type Program struct {
 	Statements []Statement
+	EOF        token.Token // the end-of-input token (it carries the trailing comments)
 }
 
 func (p *Program) WriteTo(cw *CodeWriter) {
@@ -81,6 +82,7 @@ func (p *Program) WriteTo(cw *CodeWriter) {
 		}
 		stmt.WriteTo(cw)
 	}
+	cw.WriteLeadingComments(p.EOF.LeadingComments)
 }
 
 // Statements
